@@ -6,7 +6,7 @@ from pvlib import hx
 LEVEL = "proof"
 RULE = ("real bin/cache with scripted children (identity / upper / prefix / rev transforms; eager, block and read-all buffering) that "
         "log their stdin: every duplicate pattern of length <= 6 (quick) / 7 over 3 keys, seeded inputs with > 4096 distinct lines and "
-        "> 64 KiB, key specs -k/-t, and inputs whose producer stalls at and around the queue-page multiples after the 4096-line flush; stdout must be the child's answer to the first line with the same key, the child must have "
+        "> 64 KiB, LF / CRLF line ends and unterminated last lines, key specs -k/-t, and inputs whose producer stalls at and around the queue-page multiples after the 4096-line flush; stdout must be the child's answer to the first line with the same key, the child must have "
         "received exactly the first-occurrence lines in order, exit status = the child's; the Lean model (PV.Cache.run) must agree; "
         "the PV_TRACE log must be accepted by the wrapper automaton; non-trivial = distinct (key spec, child, input)")
 ASSUMPTIONS = ["child answers are compared as C02 records (a trailing CR in an answer is stripped by the reader on every path)",
@@ -57,7 +57,12 @@ def run(ctx):
         stall_lines = case[3] if len(case) > 3 else None
         fn = rng.choice(["id", "upper", "prefix", "rev"])
         pol = rng.choice([["eager"], ["block", "3"], ["readall"]])
-        data = b"".join(l + b"\n" for l in lines)
+        # line ends: LF, or CRLF (the reader strips the CR, so keys, child input and answers are those of the LF
+        # input), and sometimes a last line without terminator
+        eol = b"\r\n" if (i % 4 == 1 and not any(l.endswith(b"\r") for l in lines)) else b"\n"
+        data = b"".join(l + eol for l in lines)
+        if lines and i % 5 == 2:
+            data = data[:-len(eol)]
         log = os.path.join(ctx.tmp, "child_in.log")
         if os.path.exists(log):
             os.unlink(log)
